@@ -13,6 +13,12 @@ package main
 //                           registers (Value, Range, Bits, pos, eof) at the end
 //   boolspec <hex> <probs>  Webp.Spec.VP8.BoolDec (the RFC-style reference decoder of C04) on real writer output:
 //                           must return the encoded symbols (property finding otherwise) and no `over`
+//   rmfrb    <frame>        C06 at the level of bytes (Webp.Impl.VP8SyntaxBytes): small frames of skipped / I16 / I4
+//                           macroblocks (the generator of suite reconmodel's op rmfr) through the real token pass
+//                           rerecordAllTokens + TokenBuffer.EmitTokens + BoolWriter.Finish (hook ReconTokenFrameBytes) and the
+//                           real BoolReader + decodeMB (hook ReconTokenFrame) vs the model's emitPartitionBytes (token
+//                           partition BYTES, verbatim) and its decision-tree parser T.parseTokens run on the BoolReader model
+//                           (coefficients, NonZeroY/UV per macroblock, eof flag)
 // Round trip on the real code alone (property findings, C06): every written sequence is read back with the
 // matching reader calls (GetBit or GetBitAlt for PutBit, GetBit(128)/GetSigned for PutBitUniform, GetValue for
 // PutBits, GetBit(128)+GetSignedValue for PutSignedBits) and must return the symbols, with eof still false.
@@ -24,6 +30,7 @@ package main
 // all-0xff, all-0x00 and truncated data of 0..40 bytes.
 
 import (
+	"encoding/binary"
 	"fmt"
 	"strconv"
 	"strings"
@@ -544,7 +551,7 @@ type bcLine struct {
 }
 
 func suiteBoolCoder(rep *Report) error {
-	rep.Rule = "writer sequences (PutBit/PutBitUniform/PutBits/PutSignedBits; prob 0..256 with 0,1,128,255 over-represented; bits following or opposing the probability; lengths 0..5000) on the real bitio.BoolWriter vs the Lean model (registers before Finish, Bytes, Pos, Finish bytes; PutBit-only sequences also through PutBitBatchPacked); reader sequences (GetBit/GetBitAlt/GetSigned/GetValue/GetSignedValue) on the real bitio.BoolReader vs the Lean model over writer outputs (read back, then up to 40 symbols past the end), truncated writer outputs and random/0xff/0x00 data; the specification decoder BoolDec on writer outputs. Non-trivial: at least 8 symbols written or read."
+	rep.Rule = "C06 bytes: token partitions of small frames (real token pass + BoolWriter + BoolReader + decodeMB vs emitPartitionBytes / T.parseTokens on the BoolReader model, bytes verbatim); writer sequences (PutBit/PutBitUniform/PutBits/PutSignedBits; prob 0..256 with 0,1,128,255 over-represented; bits following or opposing the probability; lengths 0..5000) on the real bitio.BoolWriter vs the Lean model (registers before Finish, Bytes, Pos, Finish bytes; PutBit-only sequences also through PutBitBatchPacked); reader sequences (GetBit/GetBitAlt/GetSigned/GetValue/GetSignedValue) on the real bitio.BoolReader vs the Lean model over writer outputs (read back, then up to 40 symbols past the end), truncated writer outputs and random/0xff/0x00 data; the specification decoder BoolDec on writer outputs. Non-trivial: at least 8 symbols written or read."
 	nEnc, nDec := 2500, 2500
 	if rep.Tier == "thorough" {
 		nEnc, nDec = 40000, 40000
@@ -719,6 +726,16 @@ func suiteBoolCoder(rep *Report) error {
 		}
 	}
 
+	// ---- syntax at the level of bytes: token partitions of small frames ----
+	nfr := 150
+	if rep.Tier == "thorough" {
+		nfr = 2500
+	}
+	for i := 0; i < nfr; i++ {
+		line, goL, nontr := bcSyntaxFrame(rep, NewRNG(rep.Seed, 93_000_000+uint64(i)))
+		add("VP8SyntaxBytes", "syntax-bytes", line, goL, nontr)
+	}
+
 	in := make([]string, len(lines))
 	for i, l := range lines {
 		in[i] = l.line
@@ -727,7 +744,21 @@ func suiteBoolCoder(rep *Report) error {
 	if err != nil {
 		return err
 	}
+	// a driver built before Driver.VP8SyntaxBytes was wired in answers bad-op to every rmfrb line: skip that leg, say so
+	unwired := true
 	for i, l := range lines {
+		if l.site == "VP8SyntaxBytes" && lean[i] != "bad-op" {
+			unwired = false
+			break
+		}
+	}
+	if unwired {
+		rep.Notes = append(rep.Notes, "driver has no handler for op rmfrb (Driver.VP8SyntaxBytes not wired into Driver/Main.lean): syntax-bytes leg skipped")
+	}
+	for i, l := range lines {
+		if unwired && l.site == "VP8SyntaxBytes" {
+			continue
+		}
 		rep.Eval(l.nontr, []byte(l.line))
 		if lean[i] == l.goL {
 			continue
@@ -743,6 +774,112 @@ func suiteBoolCoder(rep *Report) error {
 	}
 	rep.Sample(map[string]any{"line": short(lines[len(fixed)+3].line, 200), "go": short(lines[len(fixed)+3].goL, 200)})
 	return nil
+}
+
+// ---------- C06 bytes: one small frame ----------
+
+// bcSyntaxFrame draws a frame as suite reconmodel's rmfr does and evaluates it on the real code.
+func bcSyntaxFrame(rep *Report, r *RNG) (line, goL string, nontr bool) {
+	sizes := [][2]int{{1, 1}, {2, 1}, {1, 2}, {2, 2}, {3, 2}, {3, 1}}
+	sz := sizes[r.Intn(len(sizes))]
+	n := sz[0] * sz[1]
+	q := rmQuant(r)
+	flags := make([]byte, n)
+	raw := make([]byte, 0, 800*n)
+	for m := 0; m < n; m++ {
+		isI4 := r.Bool()
+		flags[m] = '0'
+		if isI4 {
+			flags[m] = '1'
+		}
+		var levels [400]int16
+		kind := r.Intn(5) // 0 skip, 1 sparse, 2 dense, 3 y2-only / dc-only, 4 extremes
+		for b := 0; b < 25; b++ {
+			var lv [16]int16
+			switch kind {
+			case 1:
+				if r.Chance(1, 3) {
+					lv = rmLevels(r, []int{lvDCOnly, lvFew, lvSparse}[r.Intn(3)])
+				}
+			case 2:
+				lv = rmLevels(r, []int{lvFew, lvSparse, lvDense}[r.Intn(3)])
+			case 3:
+				if b == 24 || (isI4 && r.Chance(1, 4)) {
+					lv = rmLevels(r, lvDCOnly)
+				}
+			case 4:
+				if r.Chance(1, 2) {
+					lv = rmLevels(r, lvExtreme)
+				}
+			}
+			if !isI4 && b < 16 {
+				lv[0] = 0
+			}
+			if isI4 && b == 24 {
+				lv = [16]int16{}
+			}
+			copy(levels[b*16:], lv[:])
+		}
+		for _, v := range levels {
+			raw = binary.LittleEndian.AppendUint16(raw, uint16(v))
+			if v != 0 {
+				nontr = true
+			}
+		}
+		rep.Count(fmt.Sprintf("syntax-bytes:mb-kind%d", kind))
+	}
+	rep.Count(fmt.Sprintf("syntax-bytes:frame%dx%d", sz[0], sz[1]))
+	line = fmt.Sprintf("rmfrb %d %d %s %s %s", sz[0], sz[1], rmInts(q[:]), string(flags), hx(raw))
+	goL = bcSyntaxGoLine(line, rep)
+	return
+}
+
+func bcSyntaxGoLine(line string, rep *Report) string {
+	f := strings.Split(line, " ")
+	if len(f) != 6 {
+		return "bad-op"
+	}
+	w, _ := strconv.Atoi(f[1])
+	h, _ := strconv.Atoi(f[2])
+	var q [6]int
+	copy(q[:], rmParseInts(f[3]))
+	raw := unhx(f[5])
+	mbs := make([]verifapi.ReconMBIn, w*h)
+	for i := range mbs {
+		mbs[i].IsI4 = f[4][i] == '1'
+		for k := 0; k < 400; k++ {
+			mbs[i].Levels[k] = int16(binary.LittleEndian.Uint16(raw[800*i+2*k:]))
+		}
+	}
+	out, _ := guard(func() string {
+		data := verifapi.ReconTokenFrameBytes(w, h, mbs)
+		// the model's WHT is the pure-Go transformWHT (see suite reconmodel, op rmfr)
+		_ = verifapi.DspSetConfig("portable")
+		r := verifapi.ReconTokenFrame(w, h, mbs, q)
+		_ = verifapi.DspSetConfig("default")
+		parts := make([]string, len(r.MBs))
+		for i, m := range r.MBs {
+			cb := make([]byte, 0, 768)
+			for _, v := range m.Coeffs {
+				cb = binary.LittleEndian.AppendUint16(cb, uint16(v))
+			}
+			parts[i] = fmt.Sprintf("%s:%s:%d:%d", b2s(m.Skip), digest(cb), m.NonZeroY, m.NonZeroUV)
+		}
+		if rep != nil {
+			switch {
+			case len(data) <= 2:
+				rep.Count("syntax-bytes:len<=2")
+			case len(data) <= 64:
+				rep.Count("syntax-bytes:len3-64")
+			case len(data) <= 1024:
+				rep.Count("syntax-bytes:len65-1024")
+			default:
+				rep.Count("syntax-bytes:len>1024")
+			}
+		}
+		return fmt.Sprintf("ok bytes=%s mb=%s eof=%s", bcOut(data), strings.Join(parts, ";"), b2s(r.EOF))
+	})
+	return out
 }
 
 // ---------- replay ----------
@@ -767,6 +904,8 @@ func replayBoolLine(in map[string]any) int {
 			return 2
 		}
 		goL, _, _ = bcRunReader(unhx(f[1]), ops)
+	case f[0] == "rmfrb" && len(f) == 6:
+		goL = bcSyntaxGoLine(line, nil)
 	case f[0] == "boolspec" && len(f) == 3:
 		var ops []bcROp
 		for _, p := range strings.Split(f[2], ",") {
